@@ -216,7 +216,12 @@ def run(ck: Checker):
         probs.append(f'the fan-out iterates `{norm_text(it)}`, not the id list of this batch')
     # what is wrapped is the failure of this batch itself -- the object the `isinstance(<outcome>, Exception)` test looked
     # at -- not a copy or a re-creation of it (which keeps type and args but has no __traceback__ / __cause__)
-    tested = [ii[0] for n_ in cfg.nodes if n_.kind == 'test' for ii in [is_isinstance(n_.ast)] if ii and 'Exception' in ii[1]]
+    def _unnot(t_):
+        while isinstance(t_, ast.UnaryOp) and isinstance(t_.op, ast.Not):
+            t_ = t_.operand
+        return t_
+
+    tested = [ii[0] for n_ in cfg.nodes if n_.kind == 'test' for ii in [is_isinstance(_unnot(n_.ast))] if ii and 'Exception' in ii[1]]
     # ... or through a flag: `failed = isinstance(yy, Exception)` ... `if failed:`
     tested += [ii[0] for n_ in cfg.nodes if n_.kind == 'stmt' and isinstance(n_.ast, ast.Assign) for ii in [is_isinstance(n_.ast.value)] if ii and 'Exception' in ii[1]]
     warg = wrap_call.args[0] if wrap_call is not None and wrap_call.args else None
